@@ -62,6 +62,8 @@ type c02LBCase struct {
 	// client holds back until the server says 100 Continue; no handler reads the body, so
 	// the server never says it and the response must arrive without the body (server 1 only)
 	EC bool `json:"ec,omitempty"`
+	// RB: the handlers write their bodies from ONE reused buffer that they overwrite after every Write (c02Req.RB)
+	RB bool `json:"rb,omitempty"`
 }
 
 type c02LBReq struct {
@@ -69,6 +71,7 @@ type c02LBReq struct {
 	prog     []c02Step
 	entered  int32
 	guard    bool          // the server has a route timeout: the handler writes into the timeout guard's buffer
+	reuse    bool          // the handler writes from one reused buffer
 	hijacked int32         // the handler got hold of the connection through http.ResponseController
 	expect   bool          // send Expect: 100-continue
 	endNS    int64         // UnixNano at which the handler returned or panicked (0: never ran)
@@ -105,6 +108,7 @@ func c02LBHandler(w http.ResponseWriter, r *http.Request) {
 		q.inside <- struct{}{}
 		<-q.gate
 	}
+	em := c02NewEmitter(w, q.reuse, q.id, q.prog)
 	for i, s := range q.prog {
 		switch s.K {
 		case "H":
@@ -127,8 +131,8 @@ func c02LBHandler(w http.ResponseWriter, r *http.Request) {
 			rc := http.NewResponseController(w)
 			_ = rc.SetWriteDeadline(time.Now().Add(time.Hour))
 			_ = rc.SetReadDeadline(time.Now().Add(time.Hour))
-		case "W":
-			w.Write(c02Chunk(q.id, i, s.N))
+		case "W", "L":
+			c02WriteStep(em, q.id, i, s)
 		case "C":
 			<-r.Context().Done()
 		case "P":
@@ -366,6 +370,15 @@ func c02LBValid(c c02LBCase) bool {
 			if s.N < 1 {
 				return false
 			}
+		case "L":
+			if len(s.S) < 1 || len(s.S) > 8 {
+				return false
+			}
+			for _, n := range s.S {
+				if n < 0 || n > 1<<20+1 {
+					return false
+				}
+			}
 		case "C":
 			nC++
 		default:
@@ -408,6 +421,7 @@ func c02LBRun(c c02LBCase) (v kit.Verdict) {
 	c02LBNew := func(prog []c02Step) *c02LBReq { // every request of this case goes to the same server
 		q := c02LBNew(prog)
 		q.guard = cf.T > 0
+		q.reuse = c.RB
 		return q
 	}
 	cls := map[string]bool{"kind-" + c.K: true, fmt.Sprintf("server-%d", c.S): true}
@@ -447,6 +461,12 @@ func c02LBRun(c c02LBCase) (v kit.Verdict) {
 		}
 		if len(p.body) >= 4000 {
 			cls["body>=4KiB-over-real-connection"] = true
+		}
+		if c.RB && len(p.body) > 0 {
+			cls["handler-reuses-write-buffer"] = true
+			if p.largeWrites >= 2 {
+				cls["handler-reuses-write-buffer+>=2-writes>=4KiB"] = true
+			}
 		}
 		if cf.T > 0 && r.took >= time.Duration(cf.T)*time.Millisecond/2 {
 			// the machine stalled for half the route timeout: "returns at once" no longer describes this run
@@ -618,7 +638,7 @@ func c02LBGen(rt *rapid.T) c02LBCase {
 		var p []c02Step
 		wrote, flushed, infos := false, false, 0
 		for i := 0; i < n; i++ {
-			kinds := []string{"S", "W", "W", "F", "RF", "RD"}
+			kinds := []string{"S", "W", "W", "L", "F", "RF", "RD"}
 			if !wrote && !flushed && infos == 0 {
 				kinds = append(kinds, "H", "H")
 			}
@@ -643,6 +663,13 @@ func c02LBGen(rt *rapid.T) c02LBCase {
 					return p // WriteHeader panics here
 				}
 				wrote = true
+			case "L":
+				st := c02Step{K: "L"}
+				for j, m := 0, rapid.IntRange(2, 4).Draw(rt, "lruns"); j < m; j++ {
+					st.S = append(st.S, rapid.SampledFrom([]int{4096, 8191, 8192, 8193, 32767, 32768, 32769, 65536, 65537, 1 << 20}).Draw(rt, "lsize"))
+				}
+				p = append(p, st)
+				wrote = true
 			case "W":
 				wn := rapid.IntRange(1, 3).Draw(rt, "n")
 				if rapid.IntRange(0, 7).Draw(rt, "bigw") == 0 {
@@ -666,6 +693,7 @@ func c02LBGen(rt *rapid.T) c02LBCase {
 			}
 		}
 	}
+	c.RB = rapid.Bool().Draw(rt, "reusebuf")
 	if c.K != "conns" && rapid.IntRange(0, 3).Draw(rt, "panic") == 0 {
 		c.P = append(c.P, c02Step{K: "P"})
 	}
